@@ -426,7 +426,16 @@ def run_prior(plan, cov, events):
                         % (pname, arr.tolist(), outcome, np.abs(wc).min(), tol_c))
       cov["prior_rejections_checked"] += 1
     elif outcome != "ok":
-      raise Violation("prior", sig + ",singular_rejected", "MMC rejected a singular PSD init: %s" % exc)
+      # discriminator: was it the eigen-solver's rounding noise on this exactly singular matrix,
+      # a little below minus the rank-style tolerance of the PSD test?
+      import scipy.linalg
+      wc = scipy.linalg.eigh(arr, check_finite=False)[0]
+      tol_c = np.abs(wc).max() * len(wc) * np.finfo(float).eps
+      why = ",eigensolver_noise_below_minus_tolerance" if (isinstance(exc, NonPSDError) and
+                                                           -64 * tol_c < wc.min() < -tol_c) else ""
+      raise Violation("prior", sig + ",singular_rejected" + why,
+                      "MMC rejected the exactly singular PSD init %r: %s (computed lambda_min=%.3g, tolerance %.3g)"
+                      % (arr.tolist(), exc, wc.min(), tol_c))
     return sig
   if opt == "covariance":
     X = np.unique(pts_pairs if learner != "LSML" else quads.reshape(-1, d), axis=0)
